@@ -200,6 +200,11 @@ def fresh_call(draw, inputs, j, alg):
         if alg == "cg":
             opts = {"objective": draw(st.sampled_from(S.CG_OBJECTIVES)), "switches": draw(st.sampled_from([[1, 1, 0, 1], [1, 1, 0, 1], [0, 0, 0, 0],
                                                                                                          [1, 1, 1, 1], [1, 0, 0, 0]]))}
+            style = draw(st.integers(0, 3))
+            if style == 0:
+                del opts["switches"]             # the library's default switches (a call that passes none of them)
+            elif style == 1:
+                opts = {}                        # all defaults: default objective, default switches
         elif alg in ("dp", "ilp"):
             opts = {"objective": draw(S.objective_specs(k))}
         elif alg == "cbldm" and draw(st.booleans()):
